@@ -1018,9 +1018,18 @@ static void choose_reps(bool all_states, int pool_classes, int pool_sigs) {
     if (seen.insert(k).second) cls_order[std::make_pair((int)ST[s].nnc, ST[s].dim)].push_back(k);
   }
   for (auto& kv : cls_order) {
-    int taken = 0;
-    for (int k : kv.second) {
-      if (taken++ >= pool_classes) break;
+    // the first 12 classes (the basic shapes found at depth <= 1) plus an evenly spaced sample of the
+    // remaining ones, so that operands of every depth of the exploration are present
+    std::vector<int> chosen;
+    const std::vector<int>& all = kv.second;
+    int base = std::min<int>(12, (int)all.size());
+    for (int i = 0; i < base && (int)chosen.size() < pool_classes; ++i) chosen.push_back(all[i]);
+    int rest = (int)all.size() - base, want = pool_classes - (int)chosen.size();
+    if (rest > 0 && want > 0) {
+      if (want >= rest) for (int i = base; i < (int)all.size(); ++i) chosen.push_back(all[i]);
+      else for (int j = 0; j < want; ++j) chosen.push_back(all[base + (long long)j * rest / want]);
+    }
+    for (int k : chosen) {
       std::vector<int>& m = members[k];
       std::sort(m.begin(), m.end());
       for (int i = 0; i < (int)m.size() && i < pool_sigs; ++i) POOL.push_back(i == 0 ? m[0] : m[m.size() - i]);
@@ -1258,7 +1267,7 @@ int main(int argc, char** argv) {
   MODE = ARGS.opt("--mode", "C01");
   int depth = atoi(ARGS.opt("--depth", ARGS.thorough() ? "4" : "3").c_str());
   int max_dim = atoi(ARGS.opt("--maxdim", "2").c_str());
-  int pool_classes = atoi(ARGS.opt("--pool", ARGS.thorough() ? "40" : "14").c_str());
+  int pool_classes = atoi(ARGS.opt("--pool", ARGS.thorough() ? "60" : "36").c_str());
   int pool_sigs = atoi(ARGS.opt("--poolsigs", ARGS.thorough() ? "3" : "2").c_str());
   bool all_states = ARGS.has("--all-states");
   build_menus();
